@@ -1,6 +1,6 @@
 """Property -> clauses -> rule instances.  Each check_Cxx fills a Report; it never prints."""
 from .model import AnalysisError
-from .rules import twin, effect, work, feedback, models, misc, state, fresh, pda_rules
+from .rules import twin, effect, work, feedback, models, misc, state, fresh, pda_rules, build, dispatch, io as iorules
 
 ALG = ['dfa_algorithms', 'nfa_algorithms', 'pda_algorithms', 'tm_algorithms', 'cfg_algorithms', 'regexp_algorithms']
 
@@ -111,6 +111,10 @@ def check_C06(ctx, rep):
                        'regexp_algorithms.RegexpToNFAGenerator.generate_symbol', 'regexp_algorithms.RegexpToNFAGenerator.generate_zero',
                        'regexp_algorithms.RegexpToNFAGenerator.generate_one'])
     fresh.check_eps_translation(ctx, rep, ctx.prog.func('nfa_algorithms._add_nfa_transitions'))
+    dispatch.check_generator_mapping(ctx, rep, ctx.prog.func('regexp_algorithms.RegexpToNFAGenerator.generate'))
+    for f, st in dispatch.regexp_recursions(ctx):
+        if f.name in ('generate', 'regexp_simplify'):
+            dispatch.check_regexp_recursion(ctx, rep, f, st)
     _effect_on(ctx, rep, ['regexp_algorithms.regexp_to_nfa', 'regexp_algorithms.dfa_to_gnfa', 'regexp_algorithms.dfa_to_regexp',
                           'nfa_algorithms.nfa_union', 'nfa_algorithms.nfa_repetition', 'nfa_algorithms.nfa_concatenation'])
 
@@ -204,6 +208,70 @@ def check_C12(ctx, rep):
     feedback.check_k4_roles(ctx, rep, roles)
     feedback.check_compare_languages(ctx, rep, ctx.prog.func('language_generator.compare_languages'))
     feedback.check_k7(ctx, rep, ctx.prog.func('notebook.check_max_states'))
+    dispatch.check_kind_dispatch(ctx, rep, ctx.prog.func('notebook.check_automaton_accepts_rejects.accepts'), '_accepts_word')
+    dispatch.check_kind_dispatch(ctx, rep, ctx.prog.func('language_generator.generate_language'), '_words_up_to_n')
+    dispatch.check_ext_tables(ctx, rep, [ctx.prog.func('notebook.language_parser'), ctx.prog.func('make_notebook.parse_language_file')])
+
+
+STATE_NAME_CHAINS = [
+    # (writer of the state names, checker, parameter carrying the answer) -- read from make_notebook.apply_command and the templates
+    ('dfa_algorithms.dfa_product.make_state', 'notebook_dfa.check_dfa_union', 'dfa'),
+    ('dfa_algorithms.dfa_product.make_state', 'notebook_dfa.check_dfa_intersection', 'dfa'),
+    ('dfa_algorithms.dfa_product.make_state', 'notebook_dfa.check_dfa_symmetric_difference', 'dfa'),
+    ('dfa.print_state_set', 'notebook_nfa2dfa.check_nfa2dfa', 'dfa'),
+    ('dfa.print_state_set', 'notebook_dfa.check_dfa_minimal', 'answer_dfa'),
+    ('dfa_algorithms.fresh_state', 'notebook_dfa.check_dfa_reverse', 'nfa'),
+]
+
+
+def check_C13(ctx, rep):
+    rep.clauses_decided += ['every template command has a branch of matching arity and every checker call resolves with matching arity (R-DISPATCH c)',
+                            'printed keywords, state-name formats, operator tokens, symbol classes and the CFG epsilon spelling are inside what the reading parser accepts (R-IO a/c/d/e)']
+    rep.not_decided += ["that the checker's semantic criterion accepts the generated object; data-dependent clashes such as a requested start variable that already exists"]
+    if dispatch.check_templates(ctx, rep) < 60:
+        raise AnalysisError('fewer than 60 template tags / checker calls found')
+    iorules.check_keywords(ctx, rep)
+    if iorules.check_state_formats(ctx, rep, STATE_NAME_CHAINS) < 5:
+        raise AnalysisError('fewer than 5 state-name chains decided')
+    iorules.check_regexp_io(ctx, rep)
+    iorules.check_cfg_io(ctx, rep)
+    rep.extra['templates'] = len(ctx.prog.templates)
+    rep.extra['template_tags'] = sum(len(t.tags) for t in ctx.prog.templates.values())
+
+
+def check_C16(ctx, rep):
+    rep.clauses_decided += ['keywords (R-IO a)', 'label layout roles and arity (R-IO b)', 'operator tokens, precedence order, symbol class (R-IO d)',
+                            'CFG epsilon spelling and rule layout (R-IO e)', 'generated parsers match the .g4 files (R-IO f)', 'declared-versus-empty (R-BUILD)']
+    rep.not_decided += ['field-by-field equality of the re-parsed object']
+    if iorules.check_keywords(ctx, rep) < 20:
+        raise AnalysisError('fewer than 20 printed keywords / builder keys found')
+    iorules.check_label_layout(ctx, rep, 'pda')
+    iorules.check_label_layout(ctx, rep, 'tm')
+    iorules.check_regexp_io(ctx, rep)
+    iorules.check_cfg_io(ctx, rep)
+    if iorules.check_generated(ctx, rep) < 3:
+        raise AnalysisError('fewer than 3 grammar / generated-parser pairs found')
+    build.check_declared_vs_empty(ctx, rep)
+    _effect_on(ctx, rep, ['dfa_algorithms.print_dfa', 'nfa_algorithms.print_nfa', 'pda_algorithms.print_pda', 'tm_algorithms.print_tm',
+                          'cfg_algorithms.cfg_print_simple', 'regexp.print_regexp', 'regexp.print_regexp_simple'], shared=False)
+
+
+def check_C17(ctx, rep):
+    rep.clauses_decided += ['every builder passes through the declared-states, label, single-initial-state and symbol checks before constructing; DFA also determinism and totality (must-pass-through)',
+                            'each check raises exactly under its condition (guard polarity)', 'every keyword store is dominated by the duplicate check for the same keyword',
+                            'constructors validate; class invariant atoms present', 'declared-versus-empty', 'label decoding roles and arity (R-IO b)']
+    rep.not_decided += ['that every ill-formed text is rejected (the text space is open)']
+    if build.check_builders(ctx, rep) < 15:
+        raise AnalysisError('fewer than 15 builder obligations found')
+    build.check_check_methods(ctx, rep)
+    if build.check_parse_line(ctx, rep) < 4:
+        raise AnalysisError('fewer than 4 keyword stores found in parse_line')
+    if build.check_invariants(ctx, rep) < 30:
+        raise AnalysisError('fewer than 30 invariant atoms expected')
+    build.check_declared_vs_empty(ctx, rep)
+    iorules.check_label_layout(ctx, rep, 'pda')
+    iorules.check_label_layout(ctx, rep, 'tm')
+    iorules.check_keywords(ctx, rep)
 
 
 def check_C14(ctx, rep):
@@ -317,5 +385,5 @@ def check_C20(ctx, rep):
 
 REGISTRY = {
     'C01': check_C01, 'C03': check_C03, 'C04': check_C04, 'C06': check_C06, 'C08': check_C08, 'C09': check_C09, 'C10': check_C10,
-    'C11': check_C11, 'C12': check_C12, 'C14': check_C14, 'C15': check_C15, 'C18': check_C18, 'C19': check_C19, 'C20': check_C20,
+    'C11': check_C11, 'C12': check_C12, 'C13': check_C13, 'C16': check_C16, 'C17': check_C17, 'C14': check_C14, 'C15': check_C15, 'C18': check_C18, 'C19': check_C19, 'C20': check_C20,
 }
